@@ -39,6 +39,9 @@ type CertSpec struct {
 	Present int    `json:"present"` // label of the hash shown in the snapshot
 	Version uint8  `json:"version"`
 	NilSig  bool   `json:"nil_sig,omitempty"`
+	// Base > 0: reuse the signature and hash of certificate Base-1 and change only
+	// the mask (Forge mask-*) or the snapshot time, so both share every other cache-key field
+	Base int `json:"base,omitempty"`
 }
 
 type Step struct {
@@ -118,6 +121,40 @@ type cert struct {
 	snap *common.Snapshot
 	sig  crypto.Signature // zero when NilSig
 	mask uint64
+}
+
+func deriveCert(w *mbr.World, ref *kernel.Node, spec CertSpec, base *cert) *cert {
+	r := vh.NewRand(spec.Pick, "c09-derive")
+	sig := &crypto.CosiSignature{Signature: base.sig, Mask: base.mask}
+	_, pubs := chainOf(w, ref, spec.Chain, spec.Info).ConsensusKeys(spec.Round, spec.SnapTs)
+	n := len(pubs)
+	if n > 63 {
+		n = 63
+	}
+	switch spec.Forge {
+	case "mask-swap": // same number of bits, other positions
+		var on, off []int
+		for i := 0; i < n; i++ {
+			if sig.Mask&(1<<uint(i)) != 0 {
+				on = append(on, i)
+			} else {
+				off = append(off, i)
+			}
+		}
+		if len(on) > 0 && len(off) > 0 {
+			sig.Mask ^= 1 << uint(on[r.Intn(len(on))])
+			sig.Mask ^= 1 << uint(off[r.Intn(len(off))])
+		}
+	case "mask-flip":
+		sig.Mask ^= 1 << uint(r.Intn(n+1))
+	case "mask-high":
+		sig.Mask |= 1 << uint(n)
+	}
+	c := &cert{spec: spec, mask: sig.Mask, sig: sig.Signature}
+	c.snap = &common.Snapshot{Version: spec.Version, NodeId: w.S(spec.Info).Id, RoundNumber: spec.Round,
+		Timestamp: spec.SnapTs, Signature: sig, Hash: base.snap.Hash}
+	c.spec.Present = base.spec.Present
+	return c
 }
 
 func buildCert(w *mbr.World, ref *kernel.Node, cs Case, spec CertSpec) *cert {
@@ -342,7 +379,15 @@ func run(c *vh.Ctx, cs Case) {
 				continue
 			}
 			if certs[st.Cert] == nil {
-				certs[st.Cert] = buildCert(w, ref, cs, cs.Certs[st.Cert])
+				sp := cs.Certs[st.Cert]
+				if b := sp.Base - 1; b >= 0 && b < st.Cert && !cs.Certs[b].NilSig {
+					if certs[b] == nil {
+						certs[b] = buildCert(w, ref, cs, cs.Certs[b])
+					}
+					certs[st.Cert] = deriveCert(w, ref, sp, certs[b])
+				} else {
+					certs[st.Cert] = buildCert(w, ref, cs, sp)
+				}
 			}
 			ct := certs[st.Cert]
 			spec := ct.spec
@@ -664,6 +709,15 @@ func genCase(c *vh.Ctx) Case {
 			day := (snapTs - cs.Epoch) / mbr.Day
 			spec.SignTs = cs.Epoch + day*mbr.Day + 13*mbr.Hour - uint64(r.Intn(2))
 		}
+		if i > 0 && r.Chance(1, 3) { // same signature and hash as an earlier certificate, other mask or time
+			b := r.Intn(i)
+			spec = cs.Certs[b]
+			spec.Base, spec.Pick = b+1, r.U64()
+			spec.Forge = []string{"mask-swap", "mask-swap", "mask-flip", "mask-high", ""}[r.Intn(5)]
+			if spec.Forge == "" {
+				spec.SnapTs = ts[r.Intn(len(ts))]
+			}
+		}
 		cs.Certs = append(cs.Certs, spec)
 	}
 	loaded := false
@@ -718,6 +772,9 @@ func corpus() []Case {
 		with(func(s *CertSpec) { s.Hash, s.Present, s.Forge = 6, 6, "mask-zero" }),
 		with(func(s *CertSpec) { s.Hash, s.Present, s.Size = 7, 7, 1 }),
 		with(func(s *CertSpec) { s.Hash, s.Present, s.Forge = 8, 8, "mask-swap" }),
+		with(func(s *CertSpec) { s.Base, s.Forge = 1, "mask-swap" }),
+		with(func(s *CertSpec) { s.Base, s.Forge = 1, "mask-flip" }),
+		with(func(s *CertSpec) { s.Base, s.SnapTs = 1, t1+3*mbr.Day }),
 	}
 	// legacy mainnet rule: removal inside the window, certificate by the key set of the window start
 	le := forkAt - 10*mbr.Day - 13*mbr.Hour
